@@ -291,6 +291,7 @@ func NewWorld(r *Run, p *Profile) *World {
 		w.installCrashMonitor()
 	}
 	w.setupCodec()
+	dupLinksCanonicalised = w.LinkKeyBytes != nil
 	w.ShareOpts = r.Choose("share-load-options", 2) == 0
 	w.LogConc = []uint{0, 0, 0, 1, 2, 5, math.MaxUint, 1 << 63}[r.Choose("log-concurrency", 8)]
 	if w.Codec == "pb" {
@@ -1027,13 +1028,25 @@ func (w *World) ensureForeign() {
 
 func (w *World) doSpecial() {
 	n := w.pickUp("special-node")
-	kind := w.R.Choose("special-kind", 3)
+	kind := w.R.Choose("special-kind", 4)
+	src := w.pickUp("special-src")
 	if n == nil {
 		return
+	}
+	if kind == 3 && (src == nil || src == n) {
+		kind = 2
 	}
 	before := w.observe(n.Log)
 	var err error
 	switch kind {
+	case 3:
+		// a log object of ANOTHER id that holds entries of this log (an application that opened what it
+		// received under its own name): merging "a log of a different id" changes nothing
+		o := w.logOpts()
+		o.ID = w.LogID + "-other"
+		o.Entries = src.Log.GetEntries()
+		o.Heads = src.Log.Heads().Slice()
+		_, err = n.Log.Join(w.newLog(src.W, o), -1)
 	case 0:
 		_, err = n.Log.Join(n.Log, -1)
 	case 1:
@@ -1042,16 +1055,16 @@ func (w *World) doSpecial() {
 		w.ensureForeign()
 		_, err = n.Log.Join(w.Foreign, -1)
 	}
-	w.R.Logf("special n%d kind=%s", n.Idx, [...]string{"self", "empty", "foreign-id"}[kind])
+	w.R.Logf("special n%d kind=%s", n.Idx, [...]string{"self", "empty", "foreign-id", "other-id-same-entries"}[kind])
 	if !w.P.Check["C01"] {
 		return
 	}
 	if err != nil {
-		w.R.Violate("C01:special-merge", "merging with %s returned %v", [...]string{"itself", "an empty log", "a log of a different id"}[kind], err)
+		w.R.Violate("C01:special-merge", "merging with %s returned %v", [...]string{"itself", "an empty log", "a log of a different id", "a log object of a different id (holding entries of this log)"}[kind], err)
 	}
 	_, strict := w.M.Linear(n.Set, w.ByHash)
 	if d := w.sameObs(before, w.observe(n.Log), strict); d != "" {
-		w.R.Violate("C01:special-merge", "merging with %s changed the log: %s", [...]string{"itself", "an empty log", "a log of a different id"}[kind], d)
+		w.R.Violate("C01:special-merge", "merging with %s changed the log: %s", [...]string{"itself", "an empty log", "a log of a different id", "a log object of a different id (holding entries of this log)"}[kind], d)
 	}
 }
 
